@@ -1650,7 +1650,11 @@ theorem parents (S : Replay e ops certs votes rops) (hnf : NfAgree (poolLog { ep
           have hle := final_le_highest S.cons.safe rp a
           rcases Nat.eq_zero_or_pos (poolRun { epoch := e } ops).1.fin.highest with h0 | hpos
           · left
-            exact (S.cons.safe.notar_final (0, 0) b (Or.inl rfl) a (by simp; omega)).symm
+            have hb0 : b.1 = 0 := by omega
+            have hb' : b = (0, b.2) := Prod.ext hb0 rfl
+            have a' := a
+            rw [hb'] at a'
+            exact Prod.ext hb0 (S.cons.genesis b.2 a')
           · exact Or.inr ⟨hpos, a⟩
         rcases hnfp with a | a | a
         · exact Or.inl a
@@ -1672,7 +1676,8 @@ theorem parents (S : Replay e ops certs votes rops) (hnf : NfAgree (poolLog { ep
             · obtain ⟨⟨hf, hfin⟩, _, _⟩ := S.top_not_skipped hpos
               have hb' : b = ((poolRun { epoch := e } ops).1.fin.highest, hf) := by
                 rcases hk with hk | hk
-                · have := S.cons.safe.notar_final (c.slot, c.hash) _ (Or.inr (mem_finOps_notar hm hk)) hfin
+                · have hdir := final_top_direct S.cons.safe hfin (fun c' hc' => final_le_highest S.cons.safe rp hc')
+                  have := S.cons.safe.notar_direct (c.slot, c.hash) _ (Or.inr (mem_finOps_notar hm hk)) hdir
                     (by simp; omega)
                   rw [← he, this]
                 · have := (hnf c hm hk).2 hf (by rw [hcs, hbf]; exact hfin)
